@@ -20,10 +20,11 @@ Report(prop, clause, d) == PrintT(<<"FAIL", prop, l, clause, d>>)
 Chk(c, prop, clause, d) == IF c THEN TRUE ELSE Report(prop, clause, d)
 Note(kind, d) == PrintT(<<"NOTE", kind, l, d>>)
 
-SC == 4
+(* SC = units per coordinate unit: 4 (quarter units) for the small families, 1 for the finely tessellated large shapes ("sc" field) *)
+SCof(ev) == IF "sc" \in DOMAIN ev THEN ev.sc ELSE 4
 CeilDiv(a, b) == (a + b - 1) \div b
-(* tolerance in quarter units, rounded up: arc tolerance (default 0.002|delta| -> at most 1 quarter for |delta| <= 125) + 2 + |delta|/1000 *)
-Tol4(d4, at4) == (IF at4 = 0 THEN 1 ELSE at4) + 8 + CeilDiv(Abs(d4), 1000)
+(* tolerance in SC units, rounded up: arc tolerance (library default 0.002 |delta|) + 2 + |delta|/1000 *)
+Tol4(d4, at4, sc) == (IF at4 = 0 THEN Max2(1, CeilDiv(2 * Abs(d4), 1000)) ELSE at4) + 2 * sc + CeilDiv(Abs(d4), 1000)
 JoinF(jt, ml100) == CASE jt = 0 -> 1415 [] jt = 1 -> 1000 [] jt = 2 -> 1000 [] jt = 3 -> Max2(ml100 * 10, 1415)
 CapF(et) == IF et = 3 THEN 1415 ELSE 1000
 Times(d, f1000) == CeilDiv(d * f1000, 1000)
@@ -116,13 +117,14 @@ JoinedClass(p, P, d, tol, jt, ml100) ==
 PointClass(p, v, d, tol, jt) ==
   LET r == d - tol
   IN IF r >= 0 /\ Dist2(p, v) <= r * r THEN 1
-     ELSE IF Dist2(p, v) > (Times(d, IF jt = 2 THEN 1000 ELSE 1415) + tol + SC) * (Times(d, IF jt = 2 THEN 1000 ELSE 1415) + tol + SC) THEN 0 ELSE 2
+     ELSE IF Dist2(p, v) > (Times(d, IF jt = 2 THEN 1000 ELSE 1415) + tol + 4) * (Times(d, IF jt = 2 THEN 1000 ELSE 1415) + tol + 4) THEN 0 ELSE 2
 
 (* several far-apart open paths in one call: a point is classified by the path it is nearest to, provided *)
 (* every other path is farther than 2 d f + 2 tol (so their strokes cannot reach it)                        *)
 Judge(ev) ==
-  LET Ps == ScalePaths(ev.paths, SC)
-      d4 == ev.d4  d == Abs(d4)  tol == Tol4(d4, ev.at4)
+  LET SC == SCof(ev)
+      Ps == ScalePaths(ev.paths, SC)
+      d4 == ev.d4  d == Abs(d4)  tol == Tol4(d4, ev.at4, SC)
       pts == ev.pts
       poly == ev.et = 0
       ok == IF poly THEN PolyClassOK(ev.paths)
@@ -147,7 +149,7 @@ Judge(ev) ==
       prop == IF poly THEN "C06" ELSE "C07"
   IN IF ~ok THEN Note("DROP", 0)
      ELSE /\ Note("CLASSES", <<Cardinality({i \in 1..Len(pts) : C[i] = 1}), Cardinality({i \in 1..Len(pts) : C[i] = 0}), Cardinality({i \in 1..Len(pts) : C[i] = 2})>>)
-          /\ IF Abs(d4) < 2            \* |delta| < 0.5: the region is unchanged
+          /\ IF 2 * Abs(d4) < SC       \* |delta| < 0.5: the region is unchanged
              THEN Chk(\A i \in 1..Len(pts) : OnAny(E, pts[i]) \/ ~poly \/ ev.cover[i] = (IF Wind(E, pts[i]) # 0 THEN sg ELSE 0), prop, "insignificant_delta_changes_region", 0)
              ELSE /\ Chk(bad1 = {}, prop, IF ev.jt = 1 THEN "bevel_not_covered" ELSE "not_covered", IF bad1 = {} THEN 0 ELSE CHOOSE i \in bad1 : TRUE)
                   /\ Chk(bad0 = {}, prop, "covered_beyond_bound", IF bad0 = {} THEN 0 ELSE CHOOSE i \in bad0 : TRUE)
